@@ -196,6 +196,10 @@ def _plain_op(mod: nn.Module, st: Dict[str, Any], a: List[Any]) -> Any:
         return a[0] + a[1]
     if op == "add_scalar":
         return a[0] + st["c"]
+    if op == "add_fn":
+        return torch.add(a[0], a[1])
+    if op == "add_method":
+        return a[0].add(a[1])
     if op == "iadd":
         # in place on the first operand: the generator only uses it on a fresh
         # intermediate (output of a linear / matmul / add) that has no other user
@@ -276,7 +280,7 @@ def _ancestors(spec: Dict[str, Any]) -> Dict[str, Set[str]]:
 
 
 ATTENTION_OPS = {"softmax", "nn_softmax", "sdpa", "u_sdpa", "u_softmax"}
-ADD_OPS = {"add", "iadd"}
+ADD_OPS = {"add", "iadd", "add_fn", "add_method"}
 
 
 def recipe_analysis(spec: Dict[str, Any]) -> Dict[str, Any]:
@@ -466,7 +470,7 @@ class Reference:
             return U.cross_entropy(a[0], a[1]) if us else F.cross_entropy(a[0], a[1])
         if op == "mse_loss":
             return U.mse_loss(a[0], a[1]) if us else F.mse_loss(a[0], a[1])
-        if op == "add":
+        if op in ("add", "add_fn", "add_method"):
             return U.add(a[0], a[1], constraint=None) if us else a[0] + a[1]
         if op == "iadd":
             return U.add(a[0], a[1], constraint=None) if us else a[0] + a[1]
